@@ -1,8 +1,9 @@
 #!/bin/sh
-# tools/thorough_smoke.sh [scale]: every thorough command with a scaled-down budget (no evidence written)
+# tools/thorough_smoke.sh [scale]: every thorough command (or those named in PROPS) with a scaled budget (no evidence written)
 cd "$(dirname "$0")/.." || exit 2
 S=${1:-0.03}
-for id in $(/venv/bin/python -c "import json;print(' '.join(c['property_id'] for c in json.load(open('MANIFEST.json'))['checks']))"); do
+IDS=${PROPS:-$(/venv/bin/python -c "import json;print(' '.join(c['property_id'] for c in json.load(open('MANIFEST.json'))['checks']))")}
+for id in $IDS; do
   t0=$(date +%s)
   VERIF_BUDGET_SCALE=$S VERIF_NO_EVIDENCE=1 ./check $id --tier thorough > /tmp/thor_$id.out 2>&1; r=$?
   echo "$id thorough(scale $S) exit=$r $(( $(date +%s) - t0 ))s $(grep '^runs=' /tmp/thor_$id.out | cut -c1-80)"
